@@ -713,6 +713,25 @@ func (u *Unit) applyContract(fr *Frame, ct *Contract, name string, c *ssa.CallCo
 				}
 				continue
 			}
+			if strings.HasPrefix(f, "@") {
+				// @param : the backing array of a slice argument (and nothing else in that memory)
+				pn := strings.TrimSpace(f[1:])
+				for k, p := range params {
+					if p == pn && k < len(args) && args[k].T.Sort == "Slice" && args[k].Typ != nil {
+						elem := args[k].Typ.Underlying().(*types.Slice).Elem()
+						name, h := u.memHeap(st, elem)
+						row := u.fresh("row", arrayElem(h.Sort))
+						if u.sortOf(elem) == "Int" {
+							lo, hi, ok := intRange(elem)
+							if ok {
+								u.assume(tTrue, Term{fmt.Sprintf("(forall ((k Int)) (! (and (<= %s (select %s k)) (<= (select %s k) %s)) :pattern ((select %s k))))", bigLit(lo).S, row.S, row.S, bigLit(hi).S, row.S), "Bool"})
+							}
+						}
+						st.heaps[name] = u.def(sto(h, sArr(args[k].T), row))
+					}
+				}
+				continue
+			}
 			if i := strings.Index(f, "."); i > 0 {
 				// param.ghost : only the abstract state of that one object changes
 				if g, ok := u.W.Ghosts["*."+f[i+1:]]; ok {
